@@ -1,4 +1,6 @@
 import Yaep.Lemmas.Recovery
+import Yaep.Lemmas.RecoveryTotal
+import Yaep.Props.C06
 /-!
 # C07 — error recovery: the repaired parse list
 
@@ -187,5 +189,78 @@ example : parseRecLoop c07Grammar c07Grammar.analysis 0 1 [2, 1] 100 9 0
     [{ term := none, tok := none, items := set0 c07Grammar }] [] 0 =
     parseWithRecovery c07Grammar 0 1 [2] 100 :=
   outer_fuel_suffices c07Grammar 0 1 [2] 100 5
+
+/-! ## with recovery on, the parse always succeeds
+
+`Grammar.hasTotalLoss g`: the grammar contains the rule `$S : error $eof`, which
+`yaep_read_grammar` always appends (`readGrammar_hasTotalLoss`); `Grammar.WF` alone does not
+say so.  `recoveryFuel n rmatch = (2 n + 1) (rmatch + 2) ^ n` bounds the number of iterations
+of one recovery search on an input of `n` tokens (end marker included). -/
+
+/-- Termination of the search: under the search invariant the loop empties its stack as soon
+as the fuel covers the measure `Σ (rmatch+2)^(n - stok) + bf · (rmatch+2)^n`, which every
+iteration strictly decreases (`searchStepK_mu`). -/
+theorem search_terminates {g : Grammar} {an : Analysis} {la rmatch : Nat} {full : List Nat}
+    {orig : List PSet} {startTok startPl : Nat} (ctx : RCtx g an la full orig startTok startPl)
+    (fuel : Nat) (st : SearchSt) (hinv : SearchInv g an la full orig startTok startPl st)
+    (hf : searchMu (rmatch + 2) full.length st ≤ fuel) :
+    (searchLoop g an la rmatch full orig startTok startPl fuel st).stack = [] :=
+  searchLoop_terminates ctx fuel st hinv hf
+
+/-- One call of `error_recovery` on a list of the outer loop: with the total-loss rule and
+`sfuel ≥ recoveryFuel n rmatch` the search finishes and has found a recovery. -/
+theorem recoverAt_total {g : Grammar} {an : Analysis} {la rmatch : Nat} {full : List Nat}
+    {pl : List PSet} {tok : Nat} {calls : List (Nat × Nat × Nat)}
+    (hloss : g.hasTotalLoss = true) (h : OuterInv g an la full tok pl calls) (ht : tok < full.length)
+    (heof : full[full.length - 1]? = some g.eofT) {sfuel : Nat}
+    (hf : recoveryFuel full.length rmatch ≤ sfuel) :
+    (recoverAt g an la rmatch full pl tok sfuel).stack = [] ∧
+    (recoverAt g an la rmatch full pl tok sfuel).best ≠ none :=
+  recoverAt_ok hloss h.pl_ok h.run ht heof hf
+
+/-- With error recovery on, the parse succeeds for EVERY token sequence (no hypothesis on the
+tokens, the lookahead level or `recovery_match`), given the rule `$S : error $eof` and search
+fuel `≥ (2 n + 1) (rmatch + 2) ^ n`, `n = w.length + 1`. -/
+theorem recovery_total_explicit {g : Grammar} (hloss : g.hasTotalLoss = true) (la rmatch : Nat)
+    (w : List Nat) {sfuel : Nat} (hf : recoveryFuel (w.length + 1) rmatch ≤ sfuel) :
+    (parseWithRecovery g la rmatch w sfuel).ok = true :=
+  parseWithRecovery_ok hloss la rmatch w hf
+
+theorem recovery_total {g : Grammar} (hloss : g.hasTotalLoss = true) (la rmatch : Nat)
+    (w : List Nat) : ∃ F, ∀ sfuel, F ≤ sfuel → (parseWithRecovery g la rmatch w sfuel).ok = true :=
+  ⟨recoveryFuel (w.length + 1) rmatch, fun _ hf => parseWithRecovery_ok hloss la rmatch w hf⟩
+
+/-- for the grammars `yaep_read_grammar` builds -/
+theorem recovery_total_readGrammar {raw : RawGrammar} {g : Grammar} (h : readGrammar raw = .ok g)
+    (la rmatch : Nat) (w : List Nat) :
+    ∃ F, ∀ sfuel, F ≤ sfuel → (parseWithRecovery g la rmatch w sfuel).ok = true :=
+  recovery_total (readGrammar_hasTotalLoss h) la rmatch w
+
+/-- Hence the C06/C07/C08 theorems hold unconditionally for such fuel; e.g. the final list
+ends with a completed `$S` rule and the callbacks are well formed. -/
+theorem recovery_total_final {g : Grammar} (hwf : g.WF) (hloss : g.hasTotalLoss = true)
+    (la rmatch : Nat) (w : List Nat) {sfuel : Nat}
+    (hf : recoveryFuel (w.length + 1) rmatch ≤ sfuel) :
+    (∃ s it rl, (parseWithRecovery g la rmatch w sfuel).pl.getLast? = some s ∧
+      s.term = some g.eofT ∧ s.tok = some w.length ∧ it ∈ s.items ∧
+      g.rules[it.rule]? = some rl ∧ rl.lhs = g.axiomN ∧ it.dot = rl.rhs.length ∧
+      (it.rule = 0 ∨ rl.rhs = [Sym.t g.errT, Sym.t g.eofT])) ∧
+    (∀ c ∈ (parseWithRecovery g la rmatch w sfuel).calls,
+      c.2.1 ≤ c.2.2 ∧ c.2.2 ≤ w.length ∧ c.1 ≤ w.length ∧ c.2.1 ≤ c.1) ∧
+    RunOk g g.analysis la (w ++ [g.eofT]) (parseWithRecovery g la rmatch w sfuel).pl :=
+  have hok := parseWithRecovery_ok hloss la rmatch w hf
+  ⟨final_accepts hwf hok, calls_wf hok, final_pl_sets hok⟩
+
+example : c07Grammar.hasTotalLoss = true ∧ c06Grammar.hasTotalLoss = true := by decide
+example : recoveryFuel ([2, 2, 2].length + 1) 1 = 729 := by decide
+/-- the bound instantiated: `a a a` with `recovery_match = 1` … -/
+example : (parseWithRecovery c07Grammar 0 1 [2, 2, 2] 729).ok = true :=
+  recovery_total_explicit (g := c07Grammar) (by decide) 0 1 [2, 2, 2] (by decide)
+/-- … while the search actually needs far fewer iterations -/
+example : (parseWithRecovery c07Grammar 0 1 [2, 2, 2] 20).ok = true ∧
+    (parseWithRecovery c07Grammar 0 1 [2, 2, 2] 20).steps ≤ 20 := by decide
+example : (parseWithRecovery c06Grammar 1 2 [2, 3, 2, 2, 3, 2, 3] 200).ok = true := by decide
+/-- with too little search fuel the model reports `ok = false` -/
+example : (parseWithRecovery c07Grammar 0 1 [2, 2, 2] 1).ok = false := by decide
 
 end Yaep
